@@ -224,7 +224,7 @@ func (s *sackDriver) handleProbeLayers(parser *packets.FrameParser) (*common.Pro
 			return nil, errPacketDidNotMatchTraceroute
 		}
 		if !s.params.LoosenICMPSrc {
-			icmpSrc := netip.AddrPortFrom(icmpInfo.IPPair.SrcAddr, tcpInfo.SrcPort)
+			icmpSrc := netip.AddrPortFrom(icmpInfo.ICMPPair.SrcAddr, tcpInfo.SrcPort)
 			expectedSrc := netip.AddrPortFrom(s.localAddr, s.localPort)
 			if icmpSrc != expectedSrc {
 				log.Tracef("icmp src mismatch. expected: %s actual: %s", expectedSrc, icmpSrc)
